@@ -118,6 +118,27 @@ Proof.
   intros s ts c Hs Hf E. pose proof (no_oob_repaired s ts Hs Hf) as H. rewrite E in H. exact H.
 Qed.
 
+(* a whole run: message after message, as long as the client keeps going *)
+Fixpoint no_oob_run (n : nat) (s : cst) (ts : list tok) : Prop :=
+  match n with
+  | O => True
+  | S n' => match handle_msg s ts with
+            | Oob _ => False
+            | Ok _ s' ts' => no_oob_run n' s' ts'
+            | _ => True
+            end
+  end.
+
+Theorem C08_no_oob_run : forall n s ts, st_ok s -> fixes_all s -> no_oob_run n s ts.
+Proof.
+  induction n as [|n IH]; intros s ts Hs Hf; cbn [no_oob_run]; [exact I|].
+  pose proof (no_oob_repaired s ts Hs Hf) as H. pose proof (progress s ts) as P.
+  destruct (handle_msg s ts) as [[] s' ts'| | | |] eqn:E; auto.
+  destruct (P s' ts' (proj1 Hs) eq_refl) as [K _].
+  apply IH; [eapply st_ok_keeps; eauto|].
+  destruct K as (_ & _ & Efix). unfold fixes_all, fixed in *. now rewrite Efix.
+Qed.
+
 Theorem C08_no_oob_rect_all : forall x y w h enc s ts c,
   0 <= x -> 0 <= y -> 0 <= w -> 0 <= h -> st_ok s -> fixes_all s -> rect_body x y w h enc s ts <> Oob c.
 Proof.
